@@ -58,6 +58,7 @@ class Spec:
         self.g = an.cfg(fn)
         self._base_rd = reaching_defs(fn)
         self._memo: Dict[int, Optional[bool]] = {}
+        self.nodes = None
         self.where: Dict[int, Optional[Node]] = {}     # id(expression leaf returned by sources) -> node it is evaluated at
         self.rd = None
         # two rounds: aliases are expanded with the unrestricted definitions first, then with the feasible ones
@@ -114,6 +115,17 @@ class Spec:
             if t is False:
                 return self._decide_expr(e.orelse, node, depth + 1)
             return None
+        if isinstance(e, ast.Compare) and len(e.ops) == 1 and isinstance(e.left, ast.Name) and isinstance(e.comparators[0], ast.Constant) \
+                and e.comparators[0].value is None and isinstance(e.ops[0], (ast.Is, ast.IsNot)) and self.rd is not None:
+            # None-ness of a local: decided when every live definition is known to be None / known not to be
+            nulls = set()
+            at = node or self.rd.node_of(e.left)
+            for k, p in (self.sources(e.left, at) if at is not None else [("unknown", None)]):
+                nulls.add(self._nullness(k, p, depth + 1))
+            if len(nulls) == 1 and None not in nulls:
+                is_null = nulls.pop()
+                return is_null if isinstance(e.ops[0], ast.Is) else (not is_null)
+            return None
         if isinstance(e, ast.Name):
             # a local flag: decided when every definition that can reach here is decided the same way
             rd = self.rd or self._base_rd
@@ -128,6 +140,20 @@ class Spec:
                 vals.add(self._decide_expr(df.value, df.node, depth + 1))
             if len(vals) == 1:
                 return vals.pop()
+        return None
+
+    def _nullness(self, kind, p, depth) -> Optional[bool]:
+        """True: certainly None, False: certainly not None, None: unknown (for one leaf returned by sources)"""
+        if kind != "expr" or not isinstance(p, ast.AST) or depth > 8:
+            return None
+        if isinstance(p, ast.Constant):
+            return p.value is None
+        if isinstance(p, (ast.List, ast.Dict, ast.Tuple, ast.Set, ast.JoinedStr, ast.ListComp, ast.DictComp)):
+            return False
+        at = self.where.get(id(p))
+        d = self._decide_expr(p, at, depth + 1)
+        if d is True:
+            return False        # truthy => not None
         return None
 
     # ------------------------------------------------------------------ values
@@ -174,7 +200,7 @@ class Spec:
             if id(d) in _seen:
                 continue
             _seen.add(id(d))
-            if d.node is not None and d.node not in self.nodes:
+            if d.node is not None and getattr(self, "nodes", None) is not None and d.node not in self.nodes:
                 continue
             if d.kind == "param":
                 out.append(("param", d.name))
